@@ -16,7 +16,8 @@ Ops (one per line; the same lines drive the Lean model through `driver`):
   init                            start `init()` as a task (completion reported later as `RESULT init True|False`)
   shutdown                        await shutdown()
   conn <0|1>                      connection changed notification from the socket
-  msg <message id hex> <payload hex|->   a frame with this top-level message id and payload arrives
+  msg <message id hex> <payload hex|-> [<to_address hex>]   a frame with this top-level message id and payload arrives
+                                  (header to_address 0xB0 unless given)
   call at check_for_updates
   call ac <id> set_power <TOGGLE|TURN_OFF|TURN_ON|...> | set_mode <MODE> <power_on 0|1> | set_fan_speed <SPEED>
             | set_target_temperature <tenths-or-x20ths e.g. 21.5> | set_quick_timer <OFF_TIMER|ON_TIMER> time <h> <m>
@@ -95,6 +96,7 @@ class StubSocket:
         self.is_connected = False
         self.conn_subs = []
         self.msg_subs = []
+        self.sent = []            # (message object, retry policy) of every accepted send, in order
 
     async def open_socket(self):
         self.is_open = True
@@ -132,6 +134,7 @@ class StubSocket:
                 id(S.RETRY_CONNECTED): "CONNECTED"}.get(id(retry_policy))
         if name is None:
             name = "(%d,%d)" % (retry_policy.max_retries, ticks(retry_policy.max_lifetime))
+        self.sent.append((message, retry_policy))
         self.out.append("SEND %s %s" % (name, canon(message)))
 
     async def send_with_header(self, header, message, retry_policy):
@@ -203,7 +206,9 @@ class Api:
                 return hash((kind, sid))
 
             def __eq__(self, o):
-                return isinstance(o, Sub) and o.key == self.key
+                # [API5] harness fix: `Sub` is a fresh class per call, so `isinstance(o, Sub)` made every subscriber
+                # object unique (sub twice = two subscribers, unsub = no-op); identity is the key (kind, sid)
+                return getattr(o, "key", None) == self.key
         s = Sub()
         s.key = (kind, sid)
         return s
@@ -238,6 +243,9 @@ class Api:
             mid = int(words[1], 16)
             payload = bytes.fromhex(words[2]) if words[2] != "-" else b""
             hdr = self.hdr(mid, len(payload))
+            if len(words) > 3:  # [API5] optional 4th word: header to_address (hex), for the AirTouch 5 echo rule
+                import dataclasses
+                hdr = dataclasses.replace(hdr, to_address=int(words[3], 16))
             try:
                 r = self.reg.get_decoder(mid).decode(payload, hdr)
                 r.assert_complete()
@@ -330,12 +338,14 @@ class Api:
     def run(self, lines):
         """-> list (one per op line) of output-line lists"""
         results = []
+        self.op_sent = []         # per op line: the message objects it made the API send
         loop = self.loop
         asyncio.set_event_loop(loop)
 
         async def main():
             for line in lines:
                 self.out.clear()
+                n_sent = len(self.sock.sent)
                 try:
                     await self.op(line.split())
                 except KeyError as e:
@@ -343,6 +353,7 @@ class Api:
                 notes = sorted(x for x in self.out if x.startswith("NOTIFY"))
                 rest = [x for x in self.out if not x.startswith("NOTIFY")]
                 results.append(rest + notes)
+                self.op_sent.append(self.sock.sent[n_sent:])
             if self.init_task and not self.init_task.done():
                 self.init_task.cancel()
             try:
